@@ -311,13 +311,15 @@ Section Sim.
 
   Lemma BR_refl st e ptr u b : BR st e ptr u u b b.
   Proof.
-    destruct st; cbn [BR]; try reflexivity; exists b, (ptr + 1)%Z, 0%nat; cbn; rewrite app_nil_r;
+    destruct st; cbn [BR]; try reflexivity; exists b, (ptr + 1)%Z, 0%nat;
+      cbn [cps cpsp seq map encp enc_with flat_map]; rewrite app_nil_r;
       (split; [right; lia|split; reflexivity]).
   Qed.
 
   Lemma BR_fresh st e ptr u1 u2 : BR st e ptr u1 u2 [] [].
   Proof.
-    destruct st; cbn [BR]; try reflexivity; exists [], (ptr + 1)%Z, 0%nat; cbn; (split; [right; lia|split; reflexivity]).
+    destruct st; cbn [BR]; try reflexivity; exists [], (ptr + 1)%Z, 0%nat;
+      cbn [cps cpsp seq map encp enc_with flat_map app]; (split; [right; lia|split; reflexivity]).
   Qed.
 
   Lemma Rm_refl m : Rm m m.
@@ -494,7 +496,7 @@ Section Sim.
     - pose proof HU as (_ & _ & HQ & _). pose proof (QR_is_some _ _ HQ) as HS.
       destruct (u_query u1) as [q1|], (u_query u2) as [q2|]; try discriminate HS; [|exact I].
       apply Ro_late; [reflexivity| |apply BR_fresh].
-      apply URel_set_fragment_eq, (URel_set_query_enc p2); assumption.
+      apply URel_set_fragment_eq, (URel_set_query_enc e2 p2); assumption.
     - destruct eof eqn:Ee; cbn [negb].
       + apply Ro_late; [reflexivity|apply (URel_set_query_enc e2 p2); assumption|].
         cbn [BR] in HB |- *. destruct HB as (b0 & a & n & Han & -> & ->).
